@@ -22,7 +22,7 @@ KINDS = ("noise", "tones", "trend", "int", "explicit", "const")
 # a second record that is almost the first one: the same samples after a text export with 6 digits, a float32 round trip, a
 # channel with a gain mismatch of a few ppm -- or an equal copy (eps = 0).  r_xy then differs from r_xx by eps relative,
 # far above the comparison tolerance and far below what an independent draw would ever produce.
-near_y = st.fixed_dictionaries({"eps": st.sampled_from([0.0, 1e-6, 3e-6, 1e-7, 1e-5, "f32", "6g", "same"]), "seed": gen.seeds})
+near_y = st.fixed_dictionaries({"eps": st.sampled_from([0.0, 1e-6, 3e-6, 1e-7, 1e-5, "f32", "6g", "same", "views", "views"]), "seed": gen.seeds})
 
 
 def _near(x, d):
@@ -37,8 +37,22 @@ def _near(x, d):
     return x * (1.0 + d["eps"] * rng.uniform(-1, 1, len(x)))
 
 
+def _two_views(case, x):
+    """x and an unrelated record as two columns of one buffer (two channels of one acquisition): views that share memory"""
+    x = np.asarray(x)
+    x = x.astype(complex if np.iscomplexobj(x) else float)
+    rng = np.random.default_rng(case["y_near"]["seed"])
+    other = rng.standard_normal(len(x)) * (float(np.max(np.abs(x))) or 1.0)
+    buf = np.empty((len(x), 2), dtype=x.dtype)
+    buf[:, 0] = x
+    buf[:, 1] = other
+    return buf[:, 0], buf[:, 1]
+
+
 def _second(case, x):
     if case.get("y_near"):
+        if case["y_near"]["eps"] == "views":
+            return _two_views(case, x)[1]
         if case["y_near"]["eps"] == "same":
             return x                  # the caller passes one and the same array twice
         return _near(x, case["y_near"])
@@ -145,6 +159,8 @@ def c09_xcorr(ctx, case):
     if norm == "coeff" and not np.any(x != 0):
         ctx.exclude("coeff of all-zero data")
         return
+    if case.get("y_near", {}).get("eps") == "views":
+        x, y = _two_views(case, x)
     got, lags = spectrum.xcorr(x, y, maxlags=ml, norm=norm)
     L = N - 1 if ml is None else ml
     yy = x if y is None else y
@@ -256,6 +272,13 @@ def c09_mtx(ctx, case):
     ctx.nontrivial((m >= 2 or m == 0) and gen.is_nonconstant(x))
     ctx.check(X.shape == exp.shape, "corrmtx(%s) shape %s, expected %s" % (meth, X.shape, exp.shape))
     ctx.close(X.astype(complex), exp, "corrmtx(%s) entries" % meth, rtol=0, atol=0)
+    # the matrix stays the caller's: a second record of the same length (same order, same method) is turned into a matrix
+    # while the first matrix is still held
+    held = np.array(X, copy=True)
+    other = (x[::-1] * 0.5 + 1.25).copy()
+    _ = spectrum.corrmtx(other, m, meth)
+    ctx.check(np.array_equal(np.asarray(X), held), "the matrix returned by corrmtx(%s) changed when corrmtx was called for another record of the same size" % meth,
+              sig={"clause": "bystander"})
 
 
 # ---- records with a large dynamic range between samples: every lag sum to the accuracy of *its own* terms -----------------
